@@ -90,7 +90,7 @@ class ExecImpl : public ClauseSink {
   void run(const Plan& p);
   size_t run_range(const std::vector<Op>& ops, size_t i, int level);
   void step(const Op& op, bool nested);
-  std::vector<int> scope_stack;   // shadow stepping: scoped expectations in creation order
+  std::vector<std::pair<bool, int>> scope_stack;   // shadow stepping: scoped (is_monitor, id) in creation order
   void fail(const char* props, const char* oracle, const std::string& text);
   void note(const std::string& s);  // event log (hashed)
   void nontriv(const char* prop) { ++nontrivial[prop]; }
@@ -119,9 +119,10 @@ class ExecImpl : public ClauseSink {
   void op_destroy_watched(const Op&);
   void op_copy_watched(const Op&, bool move);
   void op_assign_watched(const Op&);
-  void op_req_destruction(const Op&);
+  void op_req_destruction(const Op&, std::function<void()>* scope_body = nullptr);
   void op_release_mon(const Op&);
   void release_mon(int id);
+  std::vector<XRep> release_mon_model(int id);
   void op_push_tracer(const Op&);
   void op_pop_tracer(const Op&);
   void op_set_reporter(const Op&);
@@ -171,6 +172,6 @@ struct StreamRec {
 
 // source lines of the three monitor statements (exec_d.cpp)
 struct MonShape { const char* file; unsigned line; const char* text; const char* call_name; };
-const MonShape& mon_shape(int nseq);
+const MonShape& mon_shape(int nseq, bool scoped = false);
 
 }  // namespace sim
